@@ -185,6 +185,16 @@ func (a *c08Adapter) checkStep(act string) {
 		return
 	}
 	(*a.hk)[a.hh] = kk
+	if strings.HasPrefix(act, "cb:") {
+		// first execution of this history: account for the crash branch
+		if a.c08World.noop {
+			a.res.NoopCrashes++
+		} else {
+			a.res.Crashes++
+			a.res.CrashSaturated += a.c08World.crashSaturated
+			a.c08World.crashSaturated = 0
+		}
+	}
 	if c08KeyDebug != nil {
 		c08KeyDebug[a.hh] = key
 	}
@@ -200,11 +210,6 @@ func (a *c08Adapter) collect(terminal bool) {
 	defer a.mu.Unlock()
 	w := a.c08World
 	if terminal {
-		a.res.Crashes += w.crashes
-		a.res.CrashSaturated += w.crashSaturated
-		if w.noop {
-			a.res.NoopCrashes++
-		}
 		for k, n := range w.maxWrites {
 			if a.res.MaxWrites == nil {
 				a.res.MaxWrites = map[string]int64{}
@@ -623,6 +628,8 @@ func c08Spaces(thorough bool) []c08Scn {
 		}
 	}
 
+	nProduct := len(out)
+
 	// ---- single payments ------------------------------------------------------------
 	kinds := []string{"valid", "unknown", "wrongamt", "holdsettle", "holdcancel"}
 	for _, dir := range []string{"AC", "CA"} {
@@ -740,8 +747,12 @@ func c08Spaces(thorough bool) []c08Scn {
 		out = append(out, c08Scn{Name: "expiry/" + pname(ps...) + "/cutBC+cutAB", Pays: ps, Dev: 0, Faults: 2, Total: 2,
 			MailboxExpiryMs: 60, SlowReest: "C>B", FaultSeq: []string{"cut:BC", "cut:AB"}})
 	}
-	out = append(out, c08AuditSpaces(thorough, pname)...)
-	return append(deeps, out...)
+	// the audit spaces go right after the product shards (large jobs first)
+	audit := c08AuditSpaces(thorough, pname)
+	merged := append([]c08Scn{}, out[:nProduct]...)
+	merged = append(merged, audit...)
+	merged = append(merged, out[nProduct:]...)
+	return append(deeps, merged...)
 }
 
 // c08AuditSpaces: the dimensions added by the axis audit (configuration options, one
@@ -768,12 +779,12 @@ func c08AuditSpaces(thorough bool, pname func(...c08Pay) string) []c08Scn {
 
 	// (1) Bob's two channels in ONE database (cross-channel forwarding-package acks are
 	// live, the switch sees both channels on restart) x graceful faults everywhere.
-	base("onedb", c08Scn{Pays: one("AC", "valid", nonDust), OneDB: true}, "")
-	base("onedb", c08Scn{Pays: one("CA", "valid", nonDust), OneDB: true}, "")
+	base("onedb", c08Scn{Pays: []c08Pay{{Dir: "AC", Amt: nonDust, Kind: "valid"}, {Dir: "CA", Amt: nonDust, Kind: "valid", At: 6}}, OneDB: true}, "")
 	base("onedb", c08Scn{Pays: one("AC", "holdsettle", nonDust), OneDB: true}, "")
 	base("onedb", c08Scn{Pays: one("CA", "unknown", nonDust), OneDB: true}, "")
-	base("onedb", c08Scn{Pays: []c08Pay{{Dir: "AC", Amt: nonDust, Kind: "valid"}, {Dir: "CA", Amt: nonDust, Kind: "valid", At: 6}}, OneDB: true}, "")
 	if thorough {
+		base("onedb", c08Scn{Pays: one("AC", "valid", nonDust), OneDB: true}, "")
+		base("onedb", c08Scn{Pays: one("CA", "valid", nonDust), OneDB: true}, "")
 		base("onedb", c08Scn{Pays: one("AC", "holdcancel", nonDust), OneDB: true}, "")
 		base("onedb", c08Scn{Pays: one("CA", "holdsettle", dustLo), OneDB: true}, "")
 		base("onedb", c08Scn{Pays: []c08Pay{{Dir: "AC", Amt: nonDust, Kind: "valid"}, {Dir: "AC", Amt: nonDust, Kind: "valid", At: 6}}, OneDB: true}, "")
@@ -831,25 +842,34 @@ func c08AuditSpaces(thorough bool, pname func(...c08Pay) string) []c08Scn {
 
 	// (5) configuration options of the forwarder that decide whether an HTLC is forwarded
 	base("cfg", c08Scn{Pays: one("AC", "valid", nonDust), RejectHTLC: true}, "/rejecthtlc")
-	base("cfg", c08Scn{Pays: []c08Pay{{Dir: "AC", Amt: dustLo, Kind: "holdsettle"}, {Dir: "AC", Amt: dustLo, Kind: "valid", At: 6}}, FeeExposureSat: 5000, OneDB: true}, "/exposure=5000")
+	base("cfg", c08Scn{Pays: one("AC", "valid", dustLo), FeeExposureSat: 2000, OneDB: true}, "/exposure=2000")
 	if thorough {
+		base("cfg", c08Scn{Pays: []c08Pay{{Dir: "AC", Amt: dustLo, Kind: "holdsettle"}, {Dir: "AC", Amt: dustLo, Kind: "valid", At: 6}}, FeeExposureSat: 5000, OneDB: true}, "/exposure=5000")
 		base("cfg", c08Scn{Pays: one("CA", "holdsettle", nonDust), RejectHTLC: true, OneDB: true}, "/rejecthtlc")
 		base("cfg", c08Scn{Pays: one("CA", "valid", dustLo), FeeExposureSat: 2000}, "/exposure=2000")
 		base("cfg", c08Scn{Pays: []c08Pay{{Dir: "AC", Amt: nonDust, Kind: "holdsettle"}, {Dir: "AC", Amt: nonDust, Kind: "valid", At: 6}}, LinkFeeExposureSat: 8000, OneDB: true}, "/linkexposure=8000")
 	}
 
-	// (6) a long pause (past the switch's 10 s / 15 s tickers and the links' 15 s
-	// forwarding-package collector) in the MIDDLE of an execution, while an HTLC is held,
-	// followed / preceded by a fault at every position.
-	long := func(pays []c08Pay) {
-		out = append(out, c08Scn{Name: "long/" + pname(pays...), Pays: pays, Dev: 1, Faults: 1, Total: 2,
-			LongIdle: true, OnlyLong: true, OneDB: true})
-	}
-	long(one("AC", "holdsettle", nonDust))
+	// (6) THOROUGH ONLY: a long pause (past the switch's 10 s / 15 s tickers and the links'
+	// 15 s forwarding-package collector) in the MIDDLE of an execution -- while an HTLC is
+	// held (long/), or while a forwarded Add waits in the mailbox of an outgoing link whose
+	// connection is slow to come back, followed by a restart of Bob (gc/: the half-open
+	// circuit must be failed back from the incoming link's forwarding package, which the
+	// collector must therefore not have removed).
 	if thorough {
+		long := func(pays []c08Pay) {
+			out = append(out, c08Scn{Name: "long/" + pname(pays...), Pays: pays, Dev: 1, Faults: 1, Total: 2,
+				LongIdle: true, OnlyLong: true, OneDB: true})
+		}
+		long(one("AC", "holdsettle", nonDust))
 		long(one("CA", "holdsettle", nonDust))
 		long(one("AC", "holdcancel", dustLo))
 		long([]c08Pay{{Dir: "AC", Amt: nonDust, Kind: "valid"}, {Dir: "AC", Amt: nonDust, Kind: "valid", At: 40}})
+		for _, k := range []string{"valid", "holdsettle"} {
+			p := one("AC", k, nonDust)
+			out = append(out, c08Scn{Name: "gc/" + pname(p...) + "/cutBC+L+rb", Pays: p, Dev: 1, Faults: 2, Total: 3,
+				LongIdle: true, OnlyLong: true, OneDB: true, SlowReest: "C>B", FaultSeq: []string{"cut:BC", "rb"}})
+		}
 	}
 	return out
 }
@@ -1042,7 +1062,9 @@ func TestC08(t *testing.T) {
 			scn c08Scn
 			v   c08FoundViol
 		}
-		maxDepth int
+		maxDepth                             int
+		crashes, noopCrashes, crashSaturated int
+		maxWrites                            = map[string]int64{}
 	)
 	byName := map[string]c08Scn{}
 	for _, s := range spaces {
@@ -1071,6 +1093,14 @@ func TestC08(t *testing.T) {
 		}
 		if r.MaxDepth > maxDepth {
 			maxDepth = r.MaxDepth
+		}
+		crashes += r.Crashes
+		noopCrashes += r.NoopCrashes
+		crashSaturated += r.CrashSaturated
+		for k, n := range r.MaxWrites {
+			if n > maxWrites[k] {
+				maxWrites[k] = n
+			}
 		}
 		for k, n := range r.Outcomes {
 			outcomes[k] += n
@@ -1113,7 +1143,7 @@ func TestC08(t *testing.T) {
 	seenSig := map[string]bool{}
 	confirmed := 0
 	for _, c := range cands {
-		if seenSig[c.v.Sig] || confirmed >= 8 {
+		if seenSig[c.v.Sig] || confirmed >= 12 {
 			continue
 		}
 		seenSig[c.v.Sig] = true
@@ -1217,6 +1247,16 @@ func TestC08(t *testing.T) {
 			coarse[strings.Join(parts, " ")] += n
 		}
 		cov["outcome_classes_coarse"] = coarse
+	}
+	if crashes+noopCrashes > 0 {
+		cov["crash_executions"] = crashes
+		cov["crash_branches_without_further_write"] = noopCrashes
+		cov["crash_k_saturated"] = crashSaturated
+		cov["bob_write_txs_per_event_max"] = maxWrites
+		if crashSaturated > 0 {
+			exhaustive = false
+			capsHit = append(capsHit, fmt.Sprintf("%d crash executions crashed at the largest enumerated k: the event may perform more writes than were enumerated", crashSaturated))
+		}
 	}
 	cov["in_process_replay_checks"] = recheck
 	cov["replayed_steps_key_checked"] = int(stepsChecked)
